@@ -586,6 +586,20 @@ pub fn prepare_room_with_history(
         }
     }
 
+    //the room row itself can only be replaced by a newer version signed by an administrator
+    match old_room_node.node.mdate < room_node.node.mdate {
+        true => {
+            if !room.is_admin(&room_node.node.verifying_key, room_node.node.mdate) {
+                return Err(Error::InvalidNode(
+                    "RoomNode mutation not authorised".to_string(),
+                ));
+            }
+        }
+        false => {
+            room_node.node = old_room_node.node.clone();
+        }
+    }
+
     //check authorisation
     for old_edge in &old_room_node.auth_edges {
         let auth_edge = &room_node.auth_edges.iter().find(|edge| edge.eq(old_edge));
